@@ -213,3 +213,21 @@ Proof.
   unfold fail, c1. unf. apply upd_same.
 Qed.
 End D4.
+
+(** the int64 deadline arithmetic is exact whenever the mathematical result is representable *)
+Lemma wrap64_id z : (- 2^63 <= z < 2^63)%Z -> wrap64 z = z.
+Proof. intros H. unfold wrap64. rewrite Z.mod_small; lia. Qed.
+Lemma put_deadline_exact count per now :
+  count <> int64_max -> (- 2^63 <= count * per < 2^63)%Z -> (- 2^63 <= now + count * per < 2^63)%Z ->
+  put_deadline count per now = Some (now + count * per)%Z.
+Proof.
+  intros Hc H1 H2. unfold put_deadline, is_max, to_ns. apply Z.eqb_neq in Hc. rewrite Hc, andb_false_r.
+  now rewrite (wrap64_id _ H1), (wrap64_id _ H2).
+Qed.
+Lemma get_deadline_exact count per now :
+  count <> int64_max -> (- 2^63 <= count * per < 2^63)%Z -> (- 2^63 <= now + count * per < 2^63)%Z ->
+  get_deadline (OpGet count per) now = Some (now + count * per)%Z.
+Proof.
+  intros Hc H1 H2. unfold get_deadline, is_max, to_ns. apply Z.eqb_neq in Hc. rewrite Hc, andb_false_r.
+  now rewrite (wrap64_id _ H1), (wrap64_id _ H2).
+Qed.
